@@ -23,7 +23,7 @@ ASSUMPTIONS = ['closed feature intervals [start,end]; a range query [a,b] with a
                'strand convention for FeatureAnnotatedMolecule as documented (None unstranded, False same strand as R1, True other strand); SingleEndTranscriptFragment only checked unstranded']
 MIN_NONTRIVIAL = {'quick': 3000, 'thorough': 1000000}
 REQUIRED_MONITORS = ['ret:findFeaturesAt', 'ret:findFeaturesBetween', 'ret:findFeaturesAtPysamAlign0', 'ret:findFeaturesAtPysamAlign1',
-                     'ret:molecule.annotate0', 'ret:molecule.annotate1', 'ret:fragment.annotate', 'history:second_round_queries', 'universe:near_or_beyond_2^31']
+                     'ret:molecule.annotate0', 'ret:molecule.annotate1', 'ret:fragment.annotate', 'history:second_round_queries', 'universe:near_or_beyond_2^31', 'history:queried_without_explicit_sort', 'history:round_adding_to_one_contig_only']
 
 
 def gen_cases(tier, seed):
@@ -99,8 +99,14 @@ def run_case(case):
 
     for rd in range(rounds):
         k = r.choice([1, 2, 3, 5, 10, 30, 80, 200]) if rd == 0 else r.choice([1, 1, 2, 5, 20])
+        # a round may add features to ONE contig only - possibly a contig that had none so far although it was already queried (every round
+        # queries the contig 'unseen'): answers given while it was empty must not survive
+        only = None
+        if rd > 0 and r.random() < 0.4:
+            only = r.choice(['unseen', 'unseen', r.choice(contigs)])
+            acc.count('history:round_adding_to_one_contig_only')
         for _ in range(k):
-            c = r.choice(contigs)
+            c = only or r.choice(contigs)
             mode = r.random()
             if mode < 0.15 and feats.get(c):
                 f0 = r.choice(sorted(feats[c], key=repr))
@@ -124,8 +130,13 @@ def run_case(case):
                 tup = (s, e, f'f{next(uid)}', r.choice(['+', '-', '+', '-', None]), f'id{next(uid)}')
             fc.addFeature(c, tup[0], tup[1], tup[2], strand=tup[3], data=tup[4])
             feats.setdefault(c, set()).add(tup)
-        fc.sort()
-        hist.append(f'add{k};sort')
+        # the container (re)builds its index on demand: an explicit sort() after adding is optional
+        if r.random() < (0.3 if only is None else 0.7):
+            hist.append(f'add{k}{"@" + only if only else ""};(no explicit sort)')
+            acc.count('history:queried_without_explicit_sort')
+        else:
+            fc.sort()
+            hist.append(f'add{k};sort')
         # ---- point queries
         pts = list(range(-3, U + 4)) if dense else sorted(set(
             [r.randint(-3, U + 3) for _ in range(40)] + [x + d for f in list(feats.get(contigs[0], ()))[:30] for x in f[:2] for d in (-1, 0, 1)]))
